@@ -1,5 +1,6 @@
 import Gmx.Lemmas.Router
 import Gmx.Lemmas.RouterInv
+import Gmx.Lemmas.PathCreate
 /-!
 # C44 — multi-market swaps follow the declared path and move recorded balances
 -/
@@ -223,5 +224,196 @@ example : (routerSwap false
       cur := ⟨0, 10, 11, 500, 500, 100, 100, 0, 0⟩, outs := [90, 80, 70], trace := [] }
     [0, 1, 2] [] (13, 13) (some 10, none) (100, 0)).map (fun r => (r.2.1, r.1.trace.map (·.market), r.1.cur.balL, r.1.cur.balS))
     = some (70, [0, 1, 2], 500, 410) := by decide
+
+/-! ### Creation time: `validate_and_init` / `validate_path` (every `create_*` operation) -/
+
+/-- what a path accepted by `validate_path` looks like — and nothing else is accepted: the supplied
+market accounts are pairwise distinct, each is a usable market of the store with two different
+tokens (no no-op step), following the path from the input token reaches the declared output token,
+and the stored path is the accounts' market tokens in order -/
+theorem create_path_accepted_iff (toks : List Nat) (path : List CMarket) (tin tout : Nat) :
+    (∃ r, validatePath toks path tin tout = some r) ↔
+      (path.map (·.key)).Nodup ∧ (∀ m ∈ path, m.usable = true ∧ m.long ≠ m.short) ∧
+      pathChain path tin = some tout := by
+  unfold validatePath
+  constructor
+  · rintro ⟨r, h⟩
+    cases hgo : validatePathGo path [] tin with
+    | none => simp [hgo] at h
+    | some q =>
+      obtain ⟨fin, mts⟩ := q
+      simp only [hgo] at h
+      split at h
+      · rename_i hf; subst hf
+        obtain ⟨_, h2, h3, h4, _⟩ := validatePathGo_spec _ _ _ _ _ hgo
+        exact ⟨h2, h3, h4⟩
+      · cases h
+  · rintro ⟨h1, h2, h3⟩
+    have := validatePathGo_complete path [] tin tout (by simp) h1 h2 h3
+    simp [this]
+
+/-- the stored path of an accepted side is the market tokens of the supplied accounts, in order -/
+theorem create_path_tokens {toks toks' mts : List Nat} {path : List CMarket} {tin tout : Nat}
+    (h : validatePath toks path tin tout = some (toks', mts)) :
+    mts = path.map (·.token) ∧ toks' = path.foldl (fun s m => m.addTokens s) toks := by
+  unfold validatePath at h
+  cases hgo : validatePathGo path [] tin with
+  | none => simp [hgo] at h
+  | some q =>
+    obtain ⟨fin, mts'⟩ := q
+    simp only [hgo] at h
+    split at h
+    · simp only [Option.some.injEq, Prod.mk.injEq] at h
+      obtain ⟨rfl, rfl⟩ := h
+      exact ⟨(validatePathGo_spec _ _ _ _ _ hgo).2.2.2.2, rfl⟩
+    · cases h
+
+/-- the two sides `validate_and_init` validates: the first `plen` accounts, then the next `slen` -/
+theorem create_sides {cur : CMarket} {plen slen : Nat} {accs : List CMarket}
+    {tinP tinS toutP toutS : Nat} {c : Created}
+    (h : validateAndInit cur plen slen accs tinP tinS toutP toutS = some c) :
+    plen + slen ≤ maxSteps ∧ plen + slen ≤ accs.length ∧
+    (∃ r, validatePath (cur.addTokens []) (accs.take plen) tinP toutP = some r) ∧
+    (∃ t r, validatePath t ((accs.drop plen).take slen) tinS toutS = some r) ∧
+    c.primary = (accs.take plen).map (·.token) ∧
+    c.secondary = ((accs.drop plen).take slen).map (·.token) ∧
+    c.tokens = ((accs.drop plen).take slen).foldl (fun s m => m.addTokens s)
+      ((accs.take plen).foldl (fun s m => m.addTokens s) (cur.addTokens [])) ∧
+    c.tokens.length ≤ maxTokens ∧ c.current = cur.token := by
+  unfold validateAndInit at h
+  split at h
+  · cases h
+  · split at h
+    · cases h
+    · rename_i h1 h2
+      cases hp : validatePath (cur.addTokens []) (accs.take plen) tinP toutP with
+      | none => simp [hp] at h
+      | some rp =>
+        obtain ⟨toks1, p⟩ := rp
+        simp only [hp] at h
+        cases hs : validatePath toks1 ((accs.drop plen).take slen) tinS toutS with
+        | none => simp [hs] at h
+        | some rs =>
+          obtain ⟨toks2, s⟩ := rs
+          simp only [hs] at h
+          split at h
+          · cases h
+          · rename_i h3
+            simp only [Option.some.injEq] at h
+            subst h
+            obtain ⟨hp1, hp2⟩ := create_path_tokens hp
+            obtain ⟨hs1, hs2⟩ := create_path_tokens hs
+            refine ⟨by omega, by omega, ⟨_, rfl⟩, ⟨_, _, hs⟩, hp1, hs1, ?_, by simpa using Nat.le_of_not_lt h3, rfl⟩
+            simp [hs2, hp2]
+
+/-- **paths with duplicate markets are rejected at creation** (either side) -/
+theorem create_rejects_duplicates (cur : CMarket) (plen slen : Nat) (accs : List CMarket)
+    (tinP tinS toutP toutS : Nat)
+    (h : ¬ ((accs.take plen).map (·.key)).Nodup ∨ ¬ (((accs.drop plen).take slen).map (·.key)).Nodup) :
+    validateAndInit cur plen slen accs tinP tinS toutP toutS = none := by
+  cases hc : validateAndInit cur plen slen accs tinP tinS toutP toutS with
+  | none => rfl
+  | some c =>
+    obtain ⟨_, _, hp, ⟨t, hs⟩, _⟩ := create_sides hc
+    rcases h with h | h
+    · exact absurd ((create_path_accepted_iff _ _ _ _).mp hp).1 h
+    · exact absurd ((create_path_accepted_iff _ _ _ _).mp hs).1 h
+
+/-- **paths with a no-op step (a market whose two tokens coincide), a market of another store, a
+disabled or a closed market are rejected at creation** -/
+theorem create_rejects_noop_or_unusable (cur : CMarket) (plen slen : Nat) (accs : List CMarket)
+    (tinP tinS toutP toutS : Nat) (m : CMarket)
+    (hm : m ∈ accs.take plen ∨ m ∈ (accs.drop plen).take slen)
+    (hbad : m.long = m.short ∨ m.usable = false) :
+    validateAndInit cur plen slen accs tinP tinS toutP toutS = none := by
+  cases hc : validateAndInit cur plen slen accs tinP tinS toutP toutS with
+  | none => rfl
+  | some c =>
+    obtain ⟨_, _, hp, ⟨t, hs⟩, _⟩ := create_sides hc
+    have key : m.usable = true ∧ m.long ≠ m.short := by
+      rcases hm with hm | hm
+      · exact ((create_path_accepted_iff _ _ _ _).mp hp).2.1 m hm
+      · exact ((create_path_accepted_iff _ _ _ _).mp hs).2.1 m hm
+    rcases hbad with hb | hb
+    · exact absurd hb key.2
+    · rw [key.1] at hb; cases hb
+
+/-- **each step converts the previous step's output token and the path ends in the declared output
+token, already at creation** -/
+theorem create_follows_chain {cur : CMarket} {plen slen : Nat} {accs : List CMarket}
+    {tinP tinS toutP toutS : Nat} {c : Created}
+    (h : validateAndInit cur plen slen accs tinP tinS toutP toutS = some c) :
+    pathChain (accs.take plen) tinP = some toutP ∧
+    pathChain ((accs.drop plen).take slen) tinS = some toutS := by
+  obtain ⟨_, _, hp, ⟨t, hs⟩, _⟩ := create_sides h
+  exact ⟨((create_path_accepted_iff _ _ _ _).mp hp).2.2, ((create_path_accepted_iff _ _ _ _).mp hs).2.2⟩
+
+/-- **creation and execution agree**: when market accounts are identified by their market token
+(the market address is the PDA of store and market token), the paths written at creation pass the
+execution-time duplicate check (`noDup`, i.e. `validated_primary/secondary_swap_path`), their
+lengths are the declared ones and at most ten in total -/
+theorem create_then_execution_check_passes {cur : CMarket} {plen slen : Nat} {accs : List CMarket}
+    {tinP tinS toutP toutS : Nat} {c : Created}
+    (hinj : ∀ a ∈ accs, ∀ b ∈ accs, a.token = b.token → a.key = b.key)
+    (h : validateAndInit cur plen slen accs tinP tinS toutP toutS = some c) :
+    noDup c.primary = true ∧ noDup c.secondary = true ∧
+    c.primary.length = plen ∧ c.secondary.length = slen ∧ c.primary.length + c.secondary.length ≤ 10 := by
+  obtain ⟨h1, h2, hp, ⟨t, hs⟩, e1, e2, _⟩ := create_sides h
+  have nodup_tok : ∀ l : List CMarket, (∀ a ∈ l, a ∈ accs) → (l.map (·.key)).Nodup → (l.map (·.token)).Nodup := by
+    intro l
+    induction l with
+    | nil => simp
+    | cons x xs ih =>
+      intro hsub hk
+      simp only [List.map_cons, List.nodup_cons] at hk ⊢
+      refine ⟨?_, ih (fun a ha => hsub a (List.mem_cons_of_mem _ ha)) hk.2⟩
+      intro hc
+      obtain ⟨y, hy, hyt⟩ := List.mem_map.mp hc
+      have := hinj y (hsub y (List.mem_cons_of_mem _ hy)) x (hsub x List.mem_cons_self) hyt
+      exact hk.1 (List.mem_map.mpr ⟨y, hy, this⟩)
+  have sp : ∀ a ∈ accs.take plen, a ∈ accs := fun a ha => List.mem_of_mem_take ha
+  have ss : ∀ a ∈ (accs.drop plen).take slen, a ∈ accs :=
+    fun a ha => List.mem_of_mem_drop (List.mem_of_mem_take ha)
+  have lp : c.primary.length = plen := by rw [e1]; simp; omega
+  have ls : c.secondary.length = slen := by rw [e2]; simp; omega
+  refine ⟨?_, ?_, lp, ls, ?_⟩
+  · rw [e1]; exact (noDup_iff _).mpr (nodup_tok _ sp ((create_path_accepted_iff _ _ _ _).mp hp).1)
+  · rw [e2]; exact (noDup_iff _).mpr (nodup_tok _ ss ((create_path_accepted_iff _ _ _ _).mp hs).1)
+  · rw [lp, ls]; simpa [maxSteps] using h1
+
+/-- the stored token list is strictly increasing (the `# CHECK` contract of `SwapActionParams`:
+sorted, no repeats) and consists of exactly the current market's tokens and the tokens of every
+market on either path -/
+theorem create_tokens_sorted_and_exact {cur : CMarket} {plen slen : Nat} {accs : List CMarket}
+    {tinP tinS toutP toutS : Nat} {c : Created}
+    (h : validateAndInit cur plen slen accs tinP tinS toutP toutS = some c) :
+    c.tokens.Pairwise (· < ·) ∧
+    ∀ y, y ∈ c.tokens ↔ ∃ m, (m = cur ∨ m ∈ accs.take plen ∨ m ∈ (accs.drop plen).take slen) ∧
+      (y = m.short ∨ y = m.long ∨ y = m.index) := by
+  obtain ⟨_, _, _, _, _, _, et, _⟩ := create_sides h
+  rw [et]
+  refine ⟨foldTokens_sorted _ _ (foldTokens_sorted _ _ (addTokens_sorted _ _ List.Pairwise.nil)), ?_⟩
+  intro y
+  simp only [foldTokens_mem, addTokens_mem, List.not_mem_nil, or_false]
+  constructor
+  · rintro ((hy | ⟨m, hm, hy⟩) | ⟨m, hm, hy⟩)
+    · exact ⟨cur, Or.inl rfl, hy⟩
+    · exact ⟨m, Or.inr (Or.inl hm), hy⟩
+    · exact ⟨m, Or.inr (Or.inr hm), hy⟩
+  · rintro ⟨m, (hm | hm | hm), hy⟩
+    · subst hm; exact Or.inl (Or.inl hy)
+    · exact Or.inl (Or.inr ⟨m, hm, hy⟩)
+    · exact Or.inr ⟨m, hm, hy⟩
+
+/-! non-vacuity: a two-step primary path 10 → 11 → 12 and a one-step secondary path is accepted;
+repeating an account, or a pure market, is not -/
+example : validateAndInit ⟨50, 0, 9, 10, 11, true⟩ 2 1
+    [⟨51, 1, 8, 11, 10, true⟩, ⟨52, 2, 7, 11, 12, true⟩, ⟨53, 3, 9, 13, 11, true⟩] 10 11 12 13
+    = some ⟨[1, 2], [3], [7, 8, 9, 10, 11, 12, 13], 0⟩ := by decide
+example : validateAndInit ⟨50, 0, 9, 10, 11, true⟩ 3 0
+    [⟨51, 1, 8, 11, 10, true⟩, ⟨52, 2, 7, 11, 10, true⟩, ⟨51, 1, 8, 11, 10, true⟩] 10 11 0 0 = none := by decide
+example : validateAndInit ⟨50, 0, 9, 10, 11, true⟩ 1 0 [⟨51, 1, 8, 10, 10, true⟩] 10 10 0 0 = none := by decide
+example : ∀ a ∈ [(⟨51, 1, 8, 11, 10, true⟩ : CMarket), ⟨52, 2, 7, 11, 12, true⟩], ∀ b ∈ [(⟨51, 1, 8, 11, 10, true⟩ : CMarket), ⟨52, 2, 7, 11, 12, true⟩],
+    a.token = b.token → a.key = b.key := by decide
 
 end Gmx.C44
